@@ -205,6 +205,8 @@ def check(ctx, env):
     coverage_rules.r14_5_write_coverage(ctx, prog)
     c02.r2_7_u16_list(ctx, prog, rule="R14.5")
     c01.r1_6_nested_padding(ctx, prog, rule="R14.5")
+    from . import enc_loop_rules
+    enc_loop_rules.r14_7_length_field(ctx, prog)
     # the running length of the encoder is a usize converted with u16::try_from (D5 repair)
     enc = entries[0]
     l16 = []
